@@ -2,10 +2,10 @@
 """Confirms one independently written behaviour-preserving refactoring and
 stores it under benign/<id>/ with what every check said about it.
 
-usage: tools/ingest_benign.py <dir with patch_<id>.diff equiv_<id>.py meta_<id>.json> <id>
+usage: tools/ingest_benign.py <dir with patch_<id>.diff equiv_<id>.py meta_<id>.json> <id> [store-as-id]
 
-The author's equivalence script is run on the unchanged /repo and with the
-patch applied (git -C /repo apply ... / checkout -- .): its output must be
+The author's equivalence script is run on a scratch copy of /repo's fiddle/
+as it is and with the patch applied: its output must be
 byte-identical and its exit status 0 both times.  Then all 20 checks run on
 the patched tree: every one must exit 0 without a VIOLATION line.  A check
 that is not silent has raised a false alarm; the result is recorded either
@@ -29,41 +29,51 @@ def sh(cmd, cwd=None):
 
 def main():
   src, sid = sys.argv[1], sys.argv[2]
+  store = sys.argv[3] if len(sys.argv) > 3 else sid
   patch = os.path.join(src, f'patch_{sid}.diff')
   equiv = os.path.join(src, f'equiv_{sid}.py')
   with open(os.path.join(src, f'meta_{sid}.json')) as f:
     am = json.load(f)
-  rc, out, _ = sh(['git', '-C', REPO, 'status', '--porcelain'])
-  if out.strip():
-    sys.exit('refusing: /repo working tree is not clean')
-  rc0, out0, err0 = sh(['/venv/bin/python', equiv], cwd=REPO)
-  rc, _, err = sh(['git', '-C', REPO, 'apply', patch])
-  if rc != 0:
-    sys.exit(f'{sid}: patch does not apply: {err[-300:]}')
+  # everything happens on a scratch copy of /repo's fiddle/ (the equivalence
+  # script imports the checkout in its working directory)
+  import tempfile
+  tmp = tempfile.mkdtemp(prefix='fdlstatic-ingest-')
   checks = {}
   try:
-    rc1, out1, err1 = sh(['/venv/bin/python', equiv], cwd=REPO)
-    for p in PROPS:
-      env = dict(os.environ, FDLSTATIC_NO_EVIDENCE='1')
+    shutil.copytree(os.path.join(REPO, 'fiddle'), os.path.join(tmp, 'fiddle'),
+                    ignore=shutil.ignore_patterns('__pycache__', '*.pyc'))
+    rc0, out0, err0 = sh(['/venv/bin/python', equiv], cwd=tmp)
+    rc, _, err = sh(['git', 'apply', patch], cwd=tmp)
+    if rc != 0:
+      sys.exit(f'{sid}: patch does not apply: {err[-300:]}')
+    rc1, out1, err1 = sh(['/venv/bin/python', equiv], cwd=tmp)
+    import concurrent.futures
+
+    def one(p):
+      env = dict(os.environ, FDLSTATIC_NO_EVIDENCE='1', FDLSTATIC_REPO=tmp)
       r = subprocess.run(['/venv/bin/python', '-B', '-m', 'fdlstatic.main', p,
-                          '--no-evidence'], cwd=VERIF, env=env,
+                          '--repo', tmp, '--no-evidence'], cwd=VERIF, env=env,
                          capture_output=True, text=True)
       lines = [l for l in r.stdout.splitlines() if l.startswith(
           ('[', 'ANALYSIS-ERROR'))]
-      checks[p] = {'rc': r.returncode,
-                   'silent': r.returncode == 0 and 'VIOLATION' not in r.stdout,
-                   'reports': [l[:300] for l in lines[:4]]}
+      return p, {'rc': r.returncode,
+                 'silent': r.returncode == 0 and 'VIOLATION' not in r.stdout,
+                 'reports': [l[:300] for l in lines[:4]]}
+
+    with concurrent.futures.ThreadPoolExecutor(max_workers=10) as ex:
+      for p, v in ex.map(one, PROPS):
+        checks[p] = v
   finally:
-    sh(['git', '-C', REPO, 'checkout', '--', '.'])
-    sh(['git', '-C', REPO, 'clean', '-fdq', 'fiddle'])
+    shutil.rmtree(tmp, ignore_errors=True)
   equivalent = rc0 == 0 and rc1 == 0 and out0 == out1
-  d = os.path.join(VERIF, 'benign', sid)
+  d = os.path.join(VERIF, 'benign', store)
   os.makedirs(d, exist_ok=True)
   shutil.copy(patch, os.path.join(d, 'patch.diff'))
   shutil.copy(equiv, os.path.join(d, 'equiv.py'))
   loud = [p for p, v in checks.items() if not v['silent']]
   meta = {
-      'id': sid, 'property': am.get('property', sid.split('_')[0]),
+      'id': store, 'property': am.get('property', sid.split('_')[0]),
+      'round': 5 if store != sid else 4,
       'kind': am.get('kind', ''), 'summary': am.get('summary', ''),
       'functions': am.get('functions', ''),
       'why_equivalent': am.get('why_equivalent', ''),
@@ -80,7 +90,7 @@ def main():
   with open(os.path.join(d, 'meta.json'), 'w') as f:
     json.dump(meta, f, indent=1)
     f.write('\n')
-  print(f'{sid}: equivalent={equivalent} (rc {rc0}/{rc1}, '
+  print(f'{store}: equivalent={equivalent} (rc {rc0}/{rc1}, '
         f'{len(out0.splitlines())} lines); not silent: {",".join(loud) or "none"}')
   for p in loud:
     for l in checks[p]['reports'][:2]:
